@@ -26,4 +26,5 @@ def check(ctx):
     ctx.run(E.rule_callbacks_only_via_engine, "C06.X1", r, [rr.runcb, rr.stalecb])
     ctx.run(rule_error_path_total, "C06.X4")
     from .common import rule_pruning_preserves_paths
-    ctx.run(rule_pruning_preserves_paths, "C06.X1")
+    from .prunerules import rule_pruning_evaluated as _rpe
+    ctx.run(_rpe, "C06.X1", rr)
